@@ -76,6 +76,13 @@ def cases():
             cs.append((v, False, b'n', 0o120777, b'/.b', F, 0, dl))
             cs.append((v, False, b'nn', 0o120777, b'a', F, 0, dl))
             cs.append((v, dl % 2 == 0, b'n' * (dl % 7), 0o120777, b'../' * (dl % 5) + b'.', (dl % 3 == 0, dl % 4 == 0, dl % 5 == 0), 0, dl))
+        # every record length with every relocation flag set: each `curr_dr_len + thislen > ALLOWED_DR_SIZE` test of
+        # RockRidge.new (NM, PX, SL, TF, CL, RE, PL, ER/SP of the root) is met with equality, one below and one above
+        for dl in range(120, 258):
+            for fl in itertools.product((False, True), repeat=3):
+                cs.append((v, False, b'q', 0o040555, None, fl, 0, dl))
+            cs.append((v, False, b'q' * 9, 0o100444, None, F, 0, dl))
+            cs.append((v, False, b'q', 0o120777, b'qq', F, 14, dl))
         for _ in range(400):
             dl = rnd.randrange(30, 240)
             nl = rnd.randrange(0, 300)
